@@ -11,6 +11,7 @@ Step(ev) ==
       [] ev.e = "AddCall" -> o' = AddCallEff(ev.n) /\ UNCHANGED viol
       [] ev.e = "AddRet" -> o' = AddRetEff(ev.n) /\ UNCHANGED viol
       [] ev.e = "Run" -> o' = RunEff(ev.n) /\ Judge(ev, RunViol(ev.n))
+      [] ev.e = "RunNil" -> o' = RunNilEff(ev.n) /\ Judge(ev, RunViol(ev.n))
       [] ev.e = "Flush" -> o' = [o EXCEPT !.flushedN = ev.n] /\ UNCHANGED viol
       [] ev.e = "CloseCall" -> o' = CloseCallEff /\ UNCHANGED viol
       [] ev.e = "CloseRet" -> o' = [o EXCEPT !.closeRet = TRUE] /\ Judge(ev, CloseRetViol)
